@@ -1,0 +1,52 @@
+//go:build verif
+
+// Contracts for package diff, read by /verif/engine (govc). Comment-only.
+package diff
+
+// covers(e, ind, lo, hi): compressed entry e stands for ind[lo:hi] in the documented run encoding:
+// -1 for "not found", a plain index, or [first,count] for count >= 2 consecutive indices.
+//@ pred covers(e interface{}, ind []int, lo int, hi int) = (e is int && e.(int) == -1 && hi == lo+1 && ind[lo] == -1) || (e is int && e.(int) >= 0 && hi == lo+1 && ind[lo] == e.(int)) || (e is [2]int && e.([2]int)[1] >= 2 && e.([2]int)[0] >= 0 && hi == lo+e.([2]int)[1] && (forall t int :: lo <= t && t < hi ==> ind[t] == e.([2]int)[0]+(t-lo)))
+
+//@ func compressReorderIndices
+//@   requires forall k int :: 0 <= k && k < len(indices) ==> indices[k] >= -1
+//@   ghost pos map[int]int              // pos[e] = first position of indices covered by entry e
+//@   entry ghost pos[0] = 0
+//@   assigns nothing
+//@   ensures pos[0] == 0 && pos[len(result)] == len(indices)
+//@   ensures forall e int :: { result[e] } 0 <= e && e < len(result) ==> pos[e] < pos[e+1] && covers(result[e], indices, pos[e], pos[e+1])
+//@   loop 1 invariant 0 <= i && i <= len(indices) && fresh(compressed)
+//@   loop 1 invariant pos[0] == 0 && pos[len(compressed)] == i
+//@   loop 1 invariant forall e int :: { compressed[e] } 0 <= e && e < len(compressed) ==> pos[e] < pos[e+1] && covers(compressed[e], indices, pos[e], pos[e+1])
+//@   loop 1 decreases len(indices) - i
+//@   loop 1 ghost pos[len(compressed)] = i
+//@   loop 2 invariant i <= j && j <= len(indices) && i < len(indices)
+//@   loop 2 invariant forall t int :: i <= t && t < j ==> indices[t] != -1 && indices[t]-indices[i] == t-i
+//@   loop 2 decreases len(indices) - j
+
+// stripped(r, v): r is the value StripKey returned for v (an abstract token; what StripKey computes
+// is checked by the bounded harness, not deductively: it is a recursive walk over maps and slices).
+//@ upred stripped(r interface{}, v interface{})
+//@ pred scalarKind(v interface{}) = v is bool || v is int || v is int8 || v is int16 || v is int32 || v is int64 || v is uint || v is uint8 || v is uint16 || v is uint32 || v is uint64 || v is float32 || v is float64 || v is string
+
+//@ trusted func StripKey
+//@   assigns nothing
+//@   ensures stripped(result, i)
+//@   ensures scalarKind(i) || i == nil ==> result == i
+
+// emptyArray is initialised to an empty slice and never assigned again (checked structurally: no
+// function of the package stores to it).
+//@ func markRemoved
+//@   requires len(emptyArray) == 0
+//@   assigns nothing
+//@   ensures result is []interface{} && len(result.([]interface{})) == 0
+
+// The three field encodings of the documented delta format: removal = empty array, scalar = the raw
+// value, anything else = 1-element array around the key-stripped value.
+//@ func markReplaced
+//@   assigns nothing
+//@   ensures scalarKind(i) ==> result == i
+//@   ensures !scalarKind(i) ==> result is []interface{} && len(result.([]interface{})) == 1 && stripped(result.([]interface{})[0], i)
+
+//@ pred removedEnc(x interface{}) = x is []interface{} && len(x.([]interface{})) == 0
+//@ pred replacedEnc(x interface{}, v interface{}) = (scalarKind(v) && x == v) || (!scalarKind(v) && x is []interface{} && len(x.([]interface{})) == 1 && stripped(x.([]interface{})[0], v))
+//@ lemma encodings_distinguishable: forall x interface{}, v interface{} :: replacedEnc(x, v) ==> !removedEnc(x) && !(x is map[string]interface{})
